@@ -265,7 +265,7 @@ pub fn run(ctx: &Ctx, rep: &mut Report) {
         // verdicts on single-fault mutants of the whole document, as a one-file project
         let mut all = ExecDoc { defs: vec![] };
         for (p, d) in &proj.op_models {
-            if p.ends_with("other.graphql") {
+            if p.ends_with("other.graphql") || p.ends_with("x.graphql") || p.ends_with("ther.graphql") {
                 continue;
             }
             all.defs.extend(d.defs.iter().filter(|d| !matches!(d, ExecDef::Import(_))).cloned());
